@@ -183,7 +183,7 @@ def check_property(prop, tier, seed, extra_parts=None):
     # conformance: the recorded traces of the scenarios the detailed model covers are replayed through Bubus.tla's own actions
     conf = None
     maxlines = 160 if tier == 'quick' else 600
-    elig = [(sid, tr) for sid, tr in sorted(res['traces'].items()) if not tr.get('abort') and len(tr['lines']) <= maxlines and tlc.impl_eligible(tr['scn'])]
+    elig = [(sid, tr) for sid, tr in sorted(res['traces'].items()) if not tr.get('abort') and len(tr['lines']) <= maxlines and tlc.impl_eligible(tr['scn']) and tlc.impl_trace_ok(tr)]
     limit = 400 if tier == 'quick' else 4000
     if elig:
         step = max(1, len(elig) // limit)
